@@ -37,3 +37,4 @@ def run(check: Check, repo: Repo, tier: str) -> None:
     X.attr_memo(check, repo, [repo.mod(m) for m in ("utilities.print_schema", "utilities.get_default_value_ast", "utilities.value_to_literal", "utilities.coerce_input_value", "utilities.extend_schema", "utilities.build_ast_schema")])
     check.floor("ATTR-MEMO", 1, "object-attribute memos reachable from schema printing / extension")
     K.digit_class(check, repo, ["type.scalars", "utilities.value_to_literal", "utilities.ast_from_value", "utilities.get_default_value_ast"])
+    D.or_fold(check, repo)
